@@ -403,3 +403,31 @@ pub fn job_litapi(job: &Sexp) -> String {
     }
     out.join(" ")
 }
+
+/// `parg` jobs (tie of coq/Check/LitParse.v, the model of lib.rs parse_arg / literal.rs Literal::parse):
+/// `(parg id (src "<program>") (names "n0" "n1" ..) (arg i "text") ..)`; names = the identifiers of the program and of the
+/// texts in rank order (the intern table both sides use). Result per argument: `(ok <literal>)`, `(err)` or `(crash)`.
+pub fn job_parg(job: &Sexp) -> String {
+    let src = job.field("src").args()[0].text();
+    let names = Names(job.field("names").args().iter().map(|s| s.text()).collect());
+    let prg = match catch_unwind(AssertUnwindSafe(|| compile(&src))) {
+        Err(_) => return "(compile crash)".into(),
+        Ok(Err(_)) => return "(compile error)".into(),
+        Ok(Ok(p)) => p,
+    };
+    let mut out = vec![];
+    for f in job.list().iter().skip(2) {
+        if f.head() != "arg" {
+            continue;
+        }
+        let idx = f.args()[0].usize();
+        let text = f.args()[1].text();
+        let r = catch_unwind(AssertUnwindSafe(|| prg.parse_arg(idx, &text).map(|a| a.as_literal())));
+        out.push(match r {
+            Err(_) => "(crash)".to_string(),
+            Ok(Err(_)) => "(err)".to_string(),
+            Ok(Ok(l)) => format!("(ok {})", fmt_lit(&l, &names)),
+        });
+    }
+    out.join(" ")
+}
